@@ -14,12 +14,16 @@ RULE = ("random fill sequences (length 1-30 quick / 1-60 thorough) on a bare Pos
         "TIMES - exchange timestamps in any order (40 % decreasing, 20 % equal, 20 % from {-1 day, -1 s, -1, 0, 1, 1 s, +1 day, +31 years}; everything above only moves time forward by 0-5 ms); "
         "LOTS - quantities with 8 decimals (1e-8, 2e-8, 5e-7, 0.12345678, 0.99999999, 1, 2.5) at prices 1e-8 .. 65 432.10987 with exact closes / mirror flips / remainders in that scale "
         "(through the Engine without the 1e-8 price and the 0.5 fee: see ASSUMPTIONS); REBATES - a third of the fees negative and, on the bare manager, 3 % of the prices zero or negative (outside the quantifier: model-vs-code only; through the Engine a position closed at an average entry price of 0 makes the tear sheet divide by zero); "
-        "and LONG - 3 (thorough: 40) cases of one position built from 100-160 (thorough: -400) fills, increases and partial reductions, then exact close, reopen, mirror flip, exact close. A case is distinct by the SHA-1 of its op lines and "
+        "and LONG - 3 (thorough: 40) cases of one position built from 100-160 (thorough: -400) fills, increases and partial reductions, then exact close, reopen, mirror flip, exact close. CONFIGURATION-SHAPE family (ids cfg*; N/6 + 4 cases, own generator; op `init enginex <E|D> <links> <spec>+`): the Engine is assembled from 1-6 instruments spread over 1-3 exchanges whose labels are a random subset of {BinanceSpot, Coinbase, Kraken} "
+        "(so the account event's ExchangeIndex is that of the instrument's exchange, not always 0, and the order of addition differs from IndexedInstruments' exchange-first index order), of all four instrument kinds (spot 40 % / perpetual / future / option with contract sizes 10 / 0.1 / 100 and a settlement asset), "
+        "TradingState Enabled or Disabled at start (50 %; the strategy never emits), every exchange's MultiExchangeTxMap slot Some or None (35 % None: tracked but not traded), in 40 % of the multi-instrument cases one instrument that is never filled; in-domain grid / tiny fills as in the first family. "
+        "A case is distinct by the SHA-1 of its op lines and "
         "non-trivial when the implementation's observation changes at least once")
 ASSUMPTIONS = [
     "every fill has quantity > 0 (quantity = 0 makes rust_decimal panic on a division by zero in approximate_remaining_exit_fees; rejected as bad-op by harness and model)",
     "exchange timestamps of the fills are arbitrary integers in any order (decreasing, equal, negative): the property does not mention time; the spec's `life` / `exlife` keys take time_enter from the fill that opened the position and time_exit from the fill that closed it, whatever their order",
     "through the Engine a closed position also feeds the tear sheet (pnl return = pnl / (entry price x max quantity), squared by Welford's recurrence): a notional of 1e-16 with a fee of 0.5 gives a return of 5e15 whose square overflows rust_decimal and Engine::process panics in statistic::algorithm::welford_online (Decimal overflow - not modelled, code outside this property's anchors; the bare PositionManager handles the same fills). 1e-8 prices combined with 1e-8 lots are therefore generated for the bare manager only",
+    "set-up: the property does not mention how the position manager is reached; through the Engine the state is built by EngineState::builder (which has no way to start with an open position: every history starts flat; an open position at start is a history prefix), HistoricalClock, a strategy that never emits orders and DefaultInstrumentMarketData. Exchanges / instrument kinds / contract sizes / trading state / presence of an execution link are varied by the cfg* family and are invisible to model and spec (`init enginex ...` = `init engine <number of instruments>`); an account event always carries the exchange of the instrument of its fill",
     "all fills of a history are on one instrument (the engine routes by instrument; per-instrument independence is theorem engine_routes_per_instrument)",
     "exact rational arithmetic: the 'up to decimal rounding' of the property is the 1e-18 tolerance of the correspondence, not part of the theorems",
     "magnitudes: generated notionals stay below 4e15 and, above 1e9, inside the regime that rust_decimal computes exactly; beyond that the 1e-18 tolerance (relative to the "
@@ -73,7 +77,7 @@ def signature(ops, k, key, impl_line, spec_line):
             continue
         if t[0] != "fill" or len(t) != 8:
             continue
-        slot = t[2] if mode == "engine" else "0"
+        slot = t[2] if mode in ("engine", "enginex") else "0"
         q = abs(_frac(t[6]))
         before = nets.get(slot, 0)
         after = before + (q if t[4] == "B" else -q)
